@@ -685,6 +685,7 @@ class VSerial:
         self.timeout = None
         self.fault = None          # exception instance to raise from read once the inbox is drained (EOF / IO error)
         self.write_fault_after = None
+        self.write_fault_late = None
         self.writes = []           # (t, bytes)
         self.reads = []            # (t, bytes)
         self.device = device
@@ -746,6 +747,10 @@ class VSerial:
         S.emit("write", data=d.hex())
         if self.device is not None:
             self.device.on_write(d)
+        if self.write_fault_late is not None and self.nwrites == self.write_fault_late[0]:
+            # the driver accepted the bytes and fails afterwards (e.g. a write time-out while flushing)
+            S.emit("write_fault", data=d.hex(), late=True)
+            raise getattr(serial, self.write_fault_late[1])("write failed after the data was accepted")
         if self.write_delay is not None:
             dl = self.write_delay(self.nwrites)
             if dl and dl > 0:
